@@ -94,6 +94,16 @@ pub fn run(name: &str, a: &Args) -> Option<String> {
             pd3(e.duration)
         }
         "from_unix_d" => pep(Epoch::from_unix_duration(a.dur(0))),
+        "doy" => format!("{}", crate::epoch::epoch(a, 0).day_of_year().to_bits()),
+        "from_doy" => {
+            let e = hifitime::Epoch::from_day_of_year(a.z(0) as i32, f64::from_bits(a.z(1) as u64), crate::epoch::ts(a.z(2)));
+            format!("1 {} {}", e.duration.total_nanoseconds(), u8::from(e.time_scale))
+        }
+        "doy_rt" => {
+            let e = hifitime::Epoch::from_day_of_year(a.z(0) as i32, f64::from_bits(a.z(1) as u64), crate::epoch::ts(a.z(2)));
+            let (y, d) = e.year_days_of_year();
+            format!("{} {}", y, d.to_bits())
+        }
         _ => return None,
     })
 }
